@@ -40,6 +40,8 @@ def borrow(here_file, lender, names, prefix=None, slow=(), max_quick=None, max_t
             if not c["file"].startswith("../"):
                 c["file"] = "../%s/%s" % (lender, c["file"])
             c["name"] = (prefix or lender.lower() + "_") + h["name"]
+            c["lender"] = lender
+            c["lender_name"] = h["name"]
             lt = list(c.get("loop_tables", []))
             if lender not in lt:
                 lt.append(lender)
